@@ -7,6 +7,7 @@ OUT=/verif/seeded/RESULTS.txt
 [ -z "$1" ] && : > $OUT.new
 for d in seeded/${1}*/; do
   n=$(basename $d)
+  [ -e $d/RETIRED ] && { echo "$n retired (see meta.json)" | tee -a $OUT.new; continue; }
   ids=$(python3 -c "import json;print(' '.join(json.load(open('$d/meta.json'))['caught_by']))")
   res=$(tools/try_seed.sh $d/patch.diff $ids 2>&1 | grep '^== ' | sed 's/ :: .*//' | tr '\n' ';')
   echo "$n (HEAD $(git -C /repo rev-parse --short HEAD)) $res" | tee -a $OUT.new
